@@ -849,7 +849,20 @@ def sync_projects(
     def _clone_copytree(src, dst):
         if clone_ignore is None:
             return proxy.copytree(src, dst)
-        return proxy.copytree(src, dst, ignore=clone_ignore)
+
+        def ignore(path, names):
+            ignored = clone_ignore(path, names)
+            if path == src:
+                # The state point file and the document of the job itself are
+                # not data files (sync_jobs handles them separately as well).
+                ignored = [
+                    name
+                    for name in ignored
+                    if name not in ("signac_statepoint.json", "signac_job_document.json")
+                ]
+            return ignored
+
+        return proxy.copytree(src, dst, ignore=ignore)
 
     if (
         selection is not None
